@@ -52,6 +52,17 @@ def run(ctx):
         # the cube (EvolventAuto for all densities, EvolventMC outright on small grids); the affine map to the box is checked on the traces
         from .evolvent import model_check
         mc = model_check(ctx, pid)
+    if pid == "C03":
+        # unbounded itersLimit / batch sizes: the counter skeleton's inductive invariant, discharged by Apalache (an extra; TLC decides)
+        from ..tlc import TLCError, run_apalache
+        base = ["--cinit=ConstInit", "--inv=IndInv"]
+        step = run_apalache("StopSkeleton", base + ["--init=IndInit", "--length=1"])
+        init = run_apalache("StopSkeleton", base + ["--init=Init", "--length=0"])
+        neg = run_apalache("StopSkeleton", ["--cinit=ConstInit", "--inv=TooStrong", "--init=IndInit", "--length=1"])
+        if "Error" in (step, init) or neg == "NoError":
+            raise TLCError("StopSkeleton.tla: inductive invariant not established (step=%s init=%s negative control=%s)" % (step, init, neg))
+        mc["configs"].append({"module": "StopSkeleton", "tool": "apalache-mc 0.58 (inductive invariant, unbounded itersLimit and batch size)",
+                              "init_implies_IndInv": init, "IndInv_inductive": step, "negative_control_TooStrong": neg})
     cov = {
         "states": mc["states"] + stats["states"], "transitions": mc["transitions"] + stats["states"],
         "traces_validated_against_impl": stats["runs"],
